@@ -102,6 +102,13 @@ func init() {
 		v := st.freshVal("sum256", resT)
 		st.assume(eq(v.S, "(lib!sha256arr "+c+")"))
 		st.assume(fmt.Sprintf("(forall ((i Int)) (! (and (<= 0 (select %s i)) (< (select %s i) 256)) :pattern ((select %s i))))", v.S, v.S, v.S))
+		// the 32 bytes are the digest string that sha256.New/Write/Sum and the contract builtin sha256() denote
+		reg.declareFun("lib!digest", []string{"Str", "Str"}, "Str")
+		dig := fmt.Sprintf("(lib!digest %s %s)", strLit("sha256"), c)
+		reg.declareFun("content!uint8", []string{"(Array Int Int)", "Int", "Int"}, "Str")
+		st.assume(eq("(s.len "+dig+")", "32"))
+		st.assume(eq(fmt.Sprintf("(content!uint8 %s 0 32)", v.S), dig))
+		st.assume(fmt.Sprintf("(forall ((i Int)) (! (=> (and (<= 0 i) (< i 32)) (= (select %s i) (select (s.arr %s) i))) :pattern ((select %s i))))", v.S, dig, v.S))
 		return v
 	}
 	libModels["crypto/sha256.New"] = func(e *Engine, st *State, fr *Frame, args []Val, resT types.Type, pos token.Pos, ins ssa.Instruction) Val {
